@@ -120,3 +120,9 @@ package ws
 // ---- C12: a listener whose Listen failed still answers Address() ----
 //@ func (*listener).Listen
 //@   at go:Listen$1#1 assume l.bound != nil
+
+// ---- round 9: a refused Listen leaves nothing bound ----
+//@ func (*listener).Listen
+//@   ghost lerr = result1 at call:ListenTCP#1
+//@   ensures !isnil(result) && called("ListenTCP") ==> !isnil(lerr)
+//@   ensures result == mangos.ErrTLSNoCert || result == mangos.ErrTLSNoConfig ==> !called("ListenTCP")
